@@ -111,7 +111,7 @@ Section Exact.
     table_inv es (build es).
   Proof.
     induction es as [|e es IH] using rev_ind; intros Ord Bel.
-    - repeat split; try discriminate. intros h s j H; discriminate.
+    - repeat split; try discriminate; auto.
     - rewrite build_snoc.
       assert (Ord' : forall l1 x l2, es = l1 ++ x :: l2 -> forall y, In y l1 -> e_idx y <= e_idx x).
       { intros l1 x l2 E y Hy. apply (Ord l1 x (l2 ++ [e])); auto. rewrite E, <- app_assoc; reflexivity. }
@@ -128,7 +128,7 @@ Section Exact.
           -- intros E; inv E. exists (e_idx e); split; auto. lia.
           -- intros E. destruct (I2 h s j E) as (i & Hi & Hji). exists (e_idx e); split; auto.
              destruct (I1 h i Hi) as (_ & x & Hx & <-). specialize (Hle x Hx). lia.
-        * intros E; apply I2; auto.
+        * intros E; exact (I2 h s j E).
       + intros h s. rewrite existsb_app; simpl. rewrite orb_false_r. unfold rec_hit. rewrite B.
         destruct (memN h (e_names e) && memN s (e_signers e)) eqn:Eh; simpl.
         * fold (rec_hit (build es) h cur mtb s). rewrite <- I3.
